@@ -58,3 +58,11 @@ register('C15', [
     'the per-leaf fold step eval_job_insertion_in_route (needs InsertionContext); noise/blink/farthest selectors (randomised by design)',
     'validity of full solver runs under Parallelism::new(p,t)',
 ])
+
+register('C08', [
+    'generic instantiation: Sol{f: f64 from i16, tag}, Obj = total_cmp on f; dedup predicate nondeterministic; Random = arbitrary value within contract',
+    'Elitism pre-state: any sorted vector of K individuals (K case-split); induction over the sorted invariant gives arbitrary histories',
+], [
+    'Rosomaxa (self-organising) population: needs Environment with thread pools and the GSOM network',
+    'a seeded full solve never returns a worse solution (whole solver run)',
+])
